@@ -71,15 +71,18 @@ def extra_eval(c, io, mo):
 
 def source_capacity_check():
     """mini translator: the growth check of the PFC constructor in the CURRENT source, normalised"""
+    from props import cap2_checks
+    cap2_checks.REPO = vlib.REPO
     src = open(os.path.join(vlib.REPO, "StringDictionaryPFC.cpp"), "rb").read().decode(errors="replace").replace("\r", "")
-    m = re.search(r"while \(\((.*?)\) > reservedStrings\)\s*\n\s*reservedStrings = Reallocate", src, re.S)
-    return re.sub(r"\s+", "", m.group(1)) if m else None
+    g = cap2_checks._growth(src, "reservedStrings")      # canonical form (const locals inlined, sums/products sorted, helper form accepted)
+    return g[0] if len(g) == 1 else (g or None)
 
 
 def post(run, cases, impl, model):
     # (1) the capacity theorem C07_pfc_capacity_fixed is about chk_fixed = bytes + 2*len + 6: tie it to the source text
     chk = source_capacity_check()
-    ok = chk in ("bytesStrings+2*(size_t)lenCurrent+6",)
+    from props import cap2_checks as _c2
+    ok = chk == _c2.canon("bytesStrings+2*(size_t)lenCurrent+6")
     run.oblige("PFC constructor's growth check in the current source is the one C07_cap_ok_fixed is proved for (bytes + 2*len + 6)",
                ok, "source has: %s" % chk)
     run.extra["pfc_growth_check_in_source"] = chk
